@@ -165,7 +165,12 @@ func (g *Gun) shootStep(step *Call, sample *netsample.Sample, ammoName string, t
 	stepVars["preprocessor"] = preprocVars
 
 	// Template
-	payloadJSON, err := g.templ.Apply(step.Payload, step.Metadata, templateVars, ammoName, step.Name)
+	// Metadata is rendered in place, so take a copy: step.Metadata is shared with all instances shooting this scenario.
+	stepMetadata := make(map[string]string, len(step.Metadata))
+	for k, v := range step.Metadata {
+		stepMetadata[k] = v
+	}
+	payloadJSON, err := g.templ.Apply(step.Payload, stepMetadata, templateVars, ammoName, step.Name)
 	if err != nil {
 		return fmt.Errorf("%s templater.Apply %w", op, err)
 	}
@@ -194,7 +199,7 @@ func (g *Gun) shootStep(step *Call, sample *netsample.Sample, ammoName string, t
 
 	ctx, cancel := context.WithTimeout(context.Background(), timeout)
 	defer cancel()
-	ctx = metadata.NewOutgoingContext(ctx, metadata.New(step.Metadata))
+	ctx = metadata.NewOutgoingContext(ctx, metadata.New(stepMetadata))
 	out, grpcErr := g.gun.Stub.InvokeRpc(ctx, &method, message)
 	code = grpcgun.ConvertGrpcStatus(grpcErr)
 	sample.SetProtoCode(code) // for setRTT inside
@@ -203,7 +208,7 @@ func (g *Gun) shootStep(step *Call, sample *netsample.Sample, ammoName string, t
 		g.gun.GunDeps.Log.Error("response error", zap.Error(err))
 	}
 
-	g.gun.Answ(&method, message, step.Metadata, out, grpcErr, code)
+	g.gun.Answ(&method, message, stepMetadata, out, grpcErr, code)
 
 	for _, postProcessor := range step.Postprocessors {
 		pp, err := postProcessor.Process(out, code)
